@@ -154,8 +154,12 @@ pub fn oracle(c: &Case, st: &mut Stats) -> Verdict {
             vensure!(den != 0, "c12.zero-den", "denominator 0 for {v:e}: {n:?}");
             // exact value
             let tol = 8.0 * f64::EPSILON * v.max(1.0);
+            let nv = match guard(|| n.value()) {
+                Ok(x) => x,
+                Err(p) => vbail!("c12.panic", "Number::value() of {n:?} panicked: {p}"),
+            };
             vensure!(
-                (n.value() - v).abs() <= tol,
+                (nv - v).abs() <= tol,
                 "c12.value-misstated",
                 "value() = {:e} but input {v:e} (whole {whole} num {num} den {den} err {err:e})",
                 n.value()
